@@ -33,6 +33,33 @@ impl SerializableValue {
         property_code: &PropertyCode,
         diagnostics: &mut Diagnostics,
     ) -> Option<Self> {
+        let v = Self::build_unchecked(ctx, property_code, diagnostics)?;
+        let representable = match &v {
+            SerializableValue::Simple(SimpleValue::String(s, _) | SimpleValue::Pixmap(s)) => {
+                xmlutil::is_xml_representable(s)
+            }
+            SerializableValue::StringList(ss, _) => {
+                ss.iter().all(|s| xmlutil::is_xml_representable(s))
+            }
+            // other simple values are identifiers, and structured values are checked per member
+            _ => true,
+        };
+        if representable {
+            Some(v)
+        } else {
+            diagnostics.push(Diagnostic::error(
+                property_code.node().byte_range(),
+                "string contains character which cannot be represented in XML",
+            ));
+            None
+        }
+    }
+
+    fn build_unchecked(
+        ctx: &ObjectContext,
+        property_code: &PropertyCode,
+        diagnostics: &mut Diagnostics,
+    ) -> Option<Self> {
         let node = property_code.node();
         match property_code.kind() {
             PropertyCodeKind::Expr(ty, code) => {
@@ -437,8 +464,18 @@ pub(super) fn build_item_model(
             let res = property_code.evaluate()?; // no warning; to be processed by cxx pass
             let ty = TypeKind::List(Box::new(TypeKind::STRING));
             verify_code_return_type(node, code, &ty, diagnostics)?;
-            let items = res
-                .unwrap_string_list()
+            let strings = res.unwrap_string_list();
+            if !strings
+                .iter()
+                .all(|(s, _)| xmlutil::is_xml_representable(s))
+            {
+                diagnostics.push(Diagnostic::error(
+                    node.byte_range(),
+                    "string contains character which cannot be represented in XML",
+                ));
+                return None;
+            }
+            let items = strings
                 .into_iter()
                 .map(|(s, k)| ModelItem::with_text(s, k))
                 .collect();
